@@ -54,11 +54,13 @@ type recorder[N any] struct {
 	keep   bool
 	at     int
 	act    action
+	at2    int // optional second action (used for: Consume in callback i, then stop in the very next callback)
+	act2   action
 	limit  int
 }
 
 func newRecorder[N any](at int, act action) *recorder[N] {
-	return &recorder[N]{VisitorHandler: walk.NewCancelableErrorHandler(), at: at, act: act, limit: 1 << 22}
+	return &recorder[N]{VisitorHandler: walk.NewCancelableErrorHandler(), at: at, act: act, at2: -1, limit: 1 << 22}
 }
 
 func (r *recorder[N]) on(k evKind, node N) {
@@ -70,8 +72,8 @@ func (r *recorder[N]) on(k evKind, node N) {
 	if r.keep {
 		r.nodes = append(r.nodes, any(node))
 	}
-	if idx == r.at {
-		switch r.act {
+	do := func(a action) {
+		switch a {
 		case actConsume:
 			r.Consume()
 		case actDone:
@@ -79,6 +81,12 @@ func (r *recorder[N]) on(k evKind, node N) {
 		case actError:
 			r.SetError(errSentinel)
 		}
+	}
+	if idx == r.at {
+		do(r.act)
+	}
+	if idx == r.at2 {
+		do(r.act2)
 	}
 }
 
@@ -89,6 +97,7 @@ func (r *recorder[N]) Exit(node N)  { r.on(evExit, node) }
 type walker struct {
 	name string
 	run  func(root any, at int, act action, keep bool) (events []event, nodes []any, err error, panicked any)
+	run2 func(root any, at int, act action, at2 int, act2 action) (events []event, err error, panicked any)
 }
 
 func cypherWalker(name string, f func(cypher.SyntaxNode, walk.Visitor[cypher.SyntaxNode]) error) walker {
@@ -98,6 +107,12 @@ func cypherWalker(name string, f func(cypher.SyntaxNode, walk.Visitor[cypher.Syn
 		var err error
 		p := core.Try(func() { err = f(root, r) })
 		return r.events, r.nodes, err, p
+	}, run2: func(root any, at int, act action, at2 int, act2 action) ([]event, error, any) {
+		r := newRecorder[cypher.SyntaxNode](at, act)
+		r.at2, r.act2 = at2, act2
+		var err error
+		p := core.Try(func() { err = f(root, r) })
+		return r.events, err, p
 	}}
 }
 
@@ -110,6 +125,12 @@ var (
 		var err error
 		p := core.Try(func() { err = walk.PgSQL(root.(pgsql.SyntaxNode), r) })
 		return r.events, r.nodes, err, p
+	}, run2: func(root any, at int, act action, at2 int, act2 action) ([]event, error, any) {
+		r := newRecorder[pgsql.SyntaxNode](at, act)
+		r.at2, r.act2 = at2, act2
+		var err error
+		p := core.Try(func() { err = walk.PgSQL(root.(pgsql.SyntaxNode), r) })
+		return r.events, err, p
 	}}
 )
 
@@ -398,6 +419,28 @@ func checkProtocol(w walker, model any, describe string, artefact func(i int, a 
 				class := map[action]string{actConsume: "walk-consume-changes-result", actDone: "walk-done-returns-error", actError: "walk-error-not-returned"}[a]
 				report(core.Violation{Class: class, Summary: fmt.Sprintf("walk.%s on %s, %s in callback %d: returned %v, expected %s", w.name, describe, a, i, err, wantErr), Artefact: artefact(i, a)})
 				return
+			}
+			// a stop request made in the callback that immediately follows a Consume (the Exit of the consumed node)
+			if a == actConsume && base[i].kind != evExit && len(want) > i+1 {
+				for _, stop := range []action{actDone, actError} {
+					got, err, p := w.run2(model, i, actConsume, i+1, stop)
+					st.protocolRuns++
+					if p != nil {
+						report(core.Violation{Class: "walk-panics", Summary: fmt.Sprintf("walk.%s panicked on %s with Consume at callback %d then %s: %v", w.name, describe, i, stop, p), Artefact: artefact(i, a)})
+						return
+					}
+					okStop := sameEvents(want[:i+2], got) < 0
+					if stop == actDone {
+						okStop = okStop && err == nil
+					} else {
+						okStop = okStop && err != nil && errors.Is(err, errSentinel)
+					}
+					if !okStop {
+						class := map[action]string{actDone: "walk-continues-after-done", actError: "walk-continues-after-error"}[stop]
+						report(core.Violation{Class: class, Summary: fmt.Sprintf("walk.%s on %s, Consume in callback %d %s then %s in the next callback %s: predicted %d callbacks and the stop result, observed %s err=%v", w.name, describe, i, base[i], stop, want[i+1], i+2, fmtEvents(got, i+2), err), Artefact: artefact(i, a)})
+						return
+					}
+				}
 			}
 		}
 	}
